@@ -15,7 +15,7 @@ from concurrent.futures import ThreadPoolExecutor
 W = os.environ.get("NVMUT_DIR", "/tmp/nvmut")
 REPO = "/repo"
 VERIF = os.path.dirname(os.path.dirname(os.path.abspath(__file__)))
-FILES = "lbuf.c sbuf.c regex.c rstr.c rset.c uc.c ren.c dir.c mot.c reg.c led.c ex.c vi.c term.c cmd.c".split()
+FILES = "lbuf.c sbuf.c regex.c rstr.c rset.c uc.c ren.c dir.c mot.c reg.c ex.c vi.c led.c term.c cmd.c".split()
 
 # which quick checks look at code in which file (cheapest first)
 MAP = {
@@ -181,7 +181,9 @@ def evaluate(limit, files=None):
     d = os.path.join(W, "evalsrc")
     n = 0
     # relational / arithmetic / logic mutants first, statement deletions last (many of those are leaks only)
-    surv.sort(key=lambda m: (m["op"] == "delete-stmt", "free(" in m["old"]))
+    forder = {f: i for i, f in enumerate(FILES)}
+    surv.sort(key=lambda m: (m["op"] == "delete-stmt", forder.get(m["file"], 99), m["line"]))
+    surv = [m for m in surv if "free(" not in m["old"] or m["op"] != "delete-stmt"]	# leaks are outside every property
     for m in surv:
         key = (m["file"], m["line"], m["col"], m["op"])
         if key in done or (files and m["file"] not in files):
